@@ -16,6 +16,10 @@ def C13(run):
     info = run.harness("segments", tr)
     v = run.validate("TraceSegments", tr)
     run.judge(v, tr, "segments")
+    if run.tier == "thorough":
+        def mut(r):
+            r["segs"][0][1] += 1
+        run.selftest("TraceSegments", tr, "segments-range", lambda r: r.get("k") == "seg" and r.get("count", 0) >= 2 and not r.get("panic"), mut, span=1)
     run.sample(tr, pick={700, 20000, info["records"] - 2})
     run.cov["distinct_nontrivial"] = info["distinct_nontrivial"]
     run.cov["exhaustive"] = True
@@ -27,6 +31,47 @@ def C13(run):
     run.assumptions += ["the C13 predicates of spec/Segments.tla (Tiles, StartIndexOK, EndIndexOK, SplitOK, MergedOK) judge "
                         "the answers OBSERVED from block.Segmenter/Range.Split/Ranges.Merged; TLC (MCSegments) checks the "
                         "reference operators satisfy the same predicates"]
+
+
+# ------------------------------------------------------------------ binding self-tests (corrupt one logged field / drop one event)
+def _st_system(run, tr):
+    def pick(r):
+        return r.get("ev") == "run" and not r["obs"].get("err") and not r["cfg"].get("cursor") and \
+            any(x["kind"] == "data" and x["payload"] for x in r["obs"]["resp"])
+
+    def mut(r):
+        for x in r["obs"]["resp"]:
+            if x["kind"] == "data" and x["payload"]:
+                x["payload"][0] += 1
+                return
+    run.selftest("TraceSystem", tr, "system-payload", pick, mut, start=lambda r: r.get("ev") == "prog", xss="512m")
+
+
+def _st_sched(run, tr):
+    def pick(r):
+        return r.get("ev") == "supd" and r.get("t") == "JobSucceeded" and r["rows"] and r["rows"][0]
+
+    def mut(r):
+        row = r["rows"][0]
+        r["rows"][0] = ("." if row[0] == "C" else "C") + row[1:]
+    st = lambda r: r.get("ev") == "prog"   # noqa: E731
+    run.selftest("TraceSched", tr, "sched-matrix", pick, mut, start=st, span=4000, xss="512m")
+    run.selftest("TraceSched", tr, "sched-dropped-event", pick, None, start=st, span=4000, drop=True, xss="512m")
+
+
+def _st_store(run, tr):
+    def mut(r):
+        r["M"]["size"] += 1
+    run.selftest("TraceStore", tr, "store-merged-size", lambda r: r.get("ev") == "cut" and "M" in r and not r.get("err"), mut,
+                 start=lambda r: r.get("ev") == "reset", span=50)
+
+
+def _st_snap(run, tr):
+    def mut(r):
+        k = sorted(r["loaded"]["kv"])[0]
+        del r["loaded"]["kv"][k]
+    run.selftest("TraceSnap", tr, "snap-loaded-content", lambda r: r.get("ev") == "roundtrip" and len(r.get("loaded", {}).get("kv", {})) > 1 and not r.get("err"),
+                 mut, start=lambda r: r.get("ev") == "reset", span=40, xss="512m")
 
 
 # ------------------------------------------------------------------ store family (C02 C08 C09 C10 C11)
@@ -63,6 +108,8 @@ STORE_RULE = ("store driver: for each of the 27 (policy, value type) pairs the h
 def _store_common(run, prefix, mc_kind):
     _mc_store(run, mc_kind)
     tr, info = _store_trace(run, prefix)
+    if run.tier == "thorough":
+        _st_store(run, tr)
     run.sample(tr, pick={1, 2, 3, info["records"] // 2})
     run.cov["rule"] = STORE_RULE
     run.assumptions += ["abstract typed values: small integers / short strings (no floating-point rounding, see DESIGN 3)",
@@ -94,6 +141,8 @@ def C10(run):
     info = run.harness("snap", tr)
     v = run.validate("TraceSnap", tr, xss="512m")
     run.judge(v, tr, "snap")
+    if run.tier == "thorough":
+        _st_snap(run, tr)
     run.sample(tr, pick={0, 3, 5, 6})
     run.cov["distinct_nontrivial"] += info["distinct_nontrivial"]
     # (b) every cut/saveload of the store chains is a Save->Load round trip on typed content (signatures C10:*)
@@ -114,6 +163,11 @@ def C12(run):
     info = run.harness("plan", tr)
     v = run.validate_sharded("TracePlan", tr, boundary='{"H"', shards=16, heap="3g")
     run.judge(v, tr, "plan")
+    if run.tier == "thorough":
+        def mutp(r):
+            r["linear"][0] += 1
+        run.selftest("TracePlan", tr, "plan-linear-range", lambda r: r.get("k") == "plan" and r.get("accepted") and len(r.get("linear", [])) == 2 and r.get("build"),
+                     mutp, span=1, heap="3g")
     run.sample(tr, pick={100000, 200001, info["records"] - 5})
     run.cov["distinct_nontrivial"] = info["distinct_nontrivial"]
     run.cov["rule"] = ("plan driver: exhaustive grid (mode x segment size x ordered lists of 0..2 (3 in thorough) store initial blocks x "
@@ -141,6 +195,11 @@ def C14(run):
     info = run.harness("graph", tr)
     v = run.validate_sharded("TraceGraph", tr, boundary='"g":', shards=14)
     run.judge(v, tr, "graph", only="C14:")
+    if not q:
+        def mutg(r):
+            r["obs"]["stages"] = list(reversed(r["obs"]["stages"]))
+        run.selftest("TraceGraph", tr, "graph-stage-order", lambda r: r.get("k") == "stage" and r.get("valid") and len(r["obs"].get("stages") or []) >= 2 and not r["obs"].get("err"),
+                     mutg, span=1)
     run.sample(tr, pick={3, 1000, info["records"] - 1})
     run.cov["distinct_nontrivial"] = info["distinct_nontrivial"]
     run.cov["rule"] = (GRAPH_RULE + "exec.NewOutputModuleGraph is run (watchdog 3 s) for every output module of small graphs and a sample "
@@ -159,6 +218,10 @@ def C06(run):
     info = run.harness("sig", tr)
     v = run.validate_sharded("TraceGraph", tr, boundary='"g":', shards=14)
     run.judge(v, tr, "sig", only="C06:")
+    if not q:
+        def muts(r):
+            r["changed"] = []
+        run.selftest("TraceGraph", tr, "sig-changed-set", lambda r: r.get("k") == "mutation" and len(r.get("changed") or []) >= 2 and not r.get("err"), muts, span=1)
     run.sample(tr, pick={1, 2, 16, info["records"] - 2})
     run.cov["distinct_nontrivial"] = info["distinct_nontrivial"]
     run.cov["rule"] = (GRAPH_RULE + "for each graph: identifiers of all modules through exec.NewOutputModuleGraph(...).ModuleHashes().Get, "
@@ -179,6 +242,11 @@ def C15(run):
     info = run.harness("filter", tr)
     v = run.validate("TraceFilter", tr, xss="512m")
     run.judge(v, tr, "filter", only="C15:")
+    if not q:
+        def mutf(r):
+            r["perBlock"][0] = not r["perBlock"][0]
+        run.selftest("TraceFilter", tr, "filter-per-block-answer", lambda r: r.get("k") == "filter" and r.get("perBlock") and not r.get("panic") and not r.get("parseErr"),
+                     mutf, span=1, xss="512m")
     run.sample(tr, pick={0, 7, 100})
     run.cov["distinct_nontrivial"] = info["distinct_nontrivial"]
     run.cov["rule"] = ("filter driver: random filter texts (nested &&, ||, implicit and, parentheses, single/double quoted and bare keys, "
@@ -204,6 +272,11 @@ def C18(run):
     info = run.harness("wire", tr)
     v = run.validate_sharded("TraceWire", tr, boundary='"k":', shards=8, xss="1g", heap="4g")
     run.judge(v, tr, "wire", only="C18:")
+    if run.tier == "thorough":
+        def mutw(r):
+            r["enc"]["fast"][-1] = (r["enc"]["fast"][-1] + 1) % 256
+        run.selftest("TraceWire", tr, "wire-fast-bytes", lambda r: r.get("k") == "store" and len(r.get("enc", {}).get("fast") or []) > 4 and not r.get("panic"),
+                     mutw, span=1, xss="1g", heap="4g")
     run.sample(tr, pick={0, 1})
     run.cov["distinct_nontrivial"] = info["distinct_nontrivial"]
     run.cov["rule"] = ("wire driver: random StoreData contents (0..12 entries, thousands in the thorough tier; empty keys/values, values "
@@ -271,6 +344,8 @@ def _system_trace(run, prefix, kind="", n=None):
         info = run.harness("system", tr, extra=extra, timeout=3000)
     v = run.validate_sharded("TraceSystem", tr, boundary='"ev":"prog"', shards=12, xss="512m")
     run.judge(v, tr, "system-" + (kind or "all"), only=prefix)
+    if kind != "forks" and kind != "faults" and not _only(run, kind):
+        _st_system(run, tr)
     run.cov["distinct_nontrivial"] += info["distinct_nontrivial"]
     run.sample(tr, pick={0, 1})
     return tr, info
@@ -312,6 +387,21 @@ def C04(run):
 def C07(run):
     run.model_check("MCSnap", "MCSnap_quick.cfg", workers=8)
     _system_common(run, "C07:", "subsets")
+    # job level, EXHAUSTIVE over the cache files of one segment: every stage x every subset of the segment's files
+    tr = _t(run, "jobs.ndjson")
+    info = run.harness("jobs", tr)
+    v = run.validate("TraceJob", tr)
+    run.judge(v, tr, "jobs", only="C07:")
+    run.cov["distinct_nontrivial"] += info["distinct_nontrivial"]
+    run.cov["job_level"] = ("%d real tier2 jobs: every stage of a three-stage program (2 variants; 4 in the thorough tier) on every subset "
+                            "of the cache files of the job's segment (cached outputs, partial and full snapshots; 2^8 subsets), judged by "
+                            "TraceJob.tla: succeeds, deletes nothing, every file left equals the clean run's, snapshots of all stores of "
+                            "stages <= k and the requested output exist afterwards" % (info["records"] - 2))
+    if run.tier == "thorough":
+        def mutj(r):
+            r["after"] = [f for f in r["after"] if not (f["kind"] in ("kv", "partial") and f["end"] == 6)]
+        run.selftest("TraceJob", tr, "job-snapshot-after", lambda r: r.get("k") == "job" and r.get("stage") == 1 and not r.get("err"), mutj,
+                     start=lambda r: r.get("k") == "jobprog", span=3)
 
 
 def C03(run):
@@ -369,6 +459,8 @@ def C05(run):
             info = run.harness_sharded("system", trk, extra=["-x", kind, "-n", str(n)], shards=8, timeout=3000)
         v = run.validate_sharded("TraceSched", trk, boundary='"ev":"prog"', shards=12, xss="512m")
         run.judge(v, trk, "sched-" + kind, only="C05:")
+        if kind == "strategies" and not _only(run, kind):
+            _st_sched(run, trk)
         # a run that hangs or fails is reported by TraceSystem (C05 liveness on the real code: the request must terminate)
         v2 = run.validate_sharded("TraceSystem", trk, boundary='"ev":"prog"', shards=12, xss="512m")
         run.judge(v2, trk, "sched-" + kind + "-termination", only="C05:")
